@@ -9,6 +9,7 @@ import Drv.Adapt
 import Drv.Verify
 import Drv.Method
 import Drv.Decl
+import Drv.Attrs
 /-! Line-protocol driver: `driver <layer> [args]` reads operation lines on stdin and prints one
     answer line per operation, computed by the executable model definitions. -/
 def main (args : List String) : IO Unit := do
@@ -24,4 +25,5 @@ def main (args : List String) : IO Unit := do
   | "verify" :: _ => Drv.Verify.main
   | "method" :: _ => Drv.Method.main
   | "decl" :: _ => Drv.Decl.main
+  | "attrs" :: _ => Drv.Attrs.main
   | _ => IO.eprintln "usage: driver <layer>"
